@@ -1516,3 +1516,121 @@ def rule_no_whole_parameter_equality(check, rule):
     else:
         check.holds(rule, '%s:%d %s' % (ci.module.relpath, ci.node.lineno, ci.key), 'no method of _Merger compares two parameters as wholes (%d equality '
                     'tests looked at)' % n, key=key)
+
+
+def rule_eq_answers(check, rule):
+    """C14.R9 (mutant sweep 5): "returns a bool ... symmetric also against plain inspect objects carrying the same data".  In the __eq__ of an
+    upgraded class: no path answers None; on a path where the base class said *equal* and the other operand is not an upgraded object (a
+    plain inspect object carrying the same data) the answer is True (or the base's answer), never a constant False."""
+    repo = check.repo
+    n = 0
+    for cname in UPGRADED:
+        ci = repo.cls('%s:%s' % (SIG, cname))
+        eq = ci.methods.get('__eq__')
+        if eq is None:
+            continue
+        check.analysed(eq)
+        it = Interp(repo, Policy())
+        paths = it.run(eq)
+        check.absorb(it)
+        key = 'eq-answers|%s' % cname
+        problems = []
+        for p in paths:
+            if p.status not in ('return', 'fall'):
+                continue
+            n += 1
+            v = p.value
+            if p.status == 'fall' or v == NONE or v == K(None):
+                problems.append('a path answers None (%s)' % (' & '.join(show_lit(l) for l in p.lits)[:80] or 'no condition'))
+                continue
+            sup_true = any(a[0] == 'truthy' and a[1][0] == 'M' and a[1][2] == '__eq__' and pol for a, pol in p.lits) or \
+                any(a[0] == 'truthy' and 'super' in show(a[1]) and pol for a, pol in p.lits)
+            other_upgraded = None
+            for a, pol in p.lits:
+                if a[0] == 'isinstance' and 'Upgraded' in str(a[2]):
+                    other_upgraded = pol
+            if sup_true and other_upgraded is False and v == K(False):
+                problems.append('the base class found the operands equal, the other one is a plain inspect object, and the answer is False')
+            if not p.lits and v[0] == 'K':
+                problems.append('answers the constant %r whatever the operands are' % (v[1],))
+        st = site_of(eq, eq.node)
+        if problems:
+            check.violation(rule, st, '%s.__eq__: %s' % (cname, '; '.join(sorted(set(problems))[:2])), key=key,
+                            witness='sigtools.signature(f) == inspect.signature(f) must be True, and never None')
+        else:
+            check.holds(rule, st, '%s.__eq__ answers a bool on every path and agrees with the base class against plain objects' % cname, key=key)
+    check.floor(rule, 'paths of the __eq__ overrides', n, 6)
+
+
+def rule_replace_slot_polarity(check, rule):
+    """C14.R3d (mutant sweep 5): `p.replace(name=…)` without `function=` / `sources=` / … keeps what the receiver has: each added slot of
+    UpgradedParameter.replace gets the receiver's value exactly when its argument is the `UNSET` marker, and the argument otherwise.  A
+    slot assigned the raw argument (the marker itself when nothing was passed), or the two arms the other way round, loses it."""
+    repo = check.repo
+    ci = repo.cls('%s:UpgradedParameter' % SIG)
+    m = ci.methods.get('replace')
+    if m is None:
+        check.holds(rule, '-', 'UpgradedParameter does not override replace', key='replace-polarity|none', nontrivial=False)
+        return
+    check.analysed(m)
+    it = Interp(repo, Policy())
+    paths = it.run(m)
+    check.absorb(it)
+    selft = ('P', m.params()[0][0])
+    slots = [s_ for s_ in (added_slots(ci) or [])]
+    n = 0
+    for s_ in slots:
+        arg = s_.lstrip('_')
+        vals = []
+        for p in paths:
+            for e in p.effects:
+                if e.kind == 'store_attr' and e.op == s_ and e.args:
+                    vals.append(e.args[0])
+        if not vals:
+            continue
+        n += 1
+        key = 'replace-polarity|%s' % s_
+        v = vals[-1]
+        own = ('A', selft, s_)
+        ok = False
+        why = 'is %s' % show(v)[:70]
+        if v[0] == 'IF' and v[1][0] == 'lit' and v[1][1][0] == 'is' and ('P', arg) in v[1][1][1:] and any('UNSET' in show(x) for x in v[1][1][1:]):
+            pol = v[1][2]
+            unset_arm, given_arm = (v[2], v[3]) if pol else (v[3], v[2])
+            ok = unset_arm == own and given_arm == ('P', arg)
+            if not ok:
+                why = 'takes %s when nothing is passed and %s when something is' % (show(unset_arm)[:30], show(given_arm)[:30])
+        elif len(set(map(repr, vals))) > 1:
+            # an if-statement form: one path stores the receiver's value, another the argument -- the path rules of C14.R3 judge those
+            ok = any(x == own for x in vals) and any(x == ('P', arg) for x in vals)
+        st = site_of(m, m.node)
+        if ok:
+            check.holds(rule, st, 'replace keeps the receiver\'s %r unless %s= is passed' % (s_, arg), key=key)
+        else:
+            check.violation(rule, st, 'UpgradedParameter.replace: the slot %r %s -- a replace() that does not mention %s= must keep the receiver\'s value'
+                            % (s_, why, arg), key=key, witness='p.replace(name="x")._function is p._function')
+    check.floor(rule, 'added slots re-established by UpgradedParameter.replace', n, 3)
+
+
+def rule_no_self_comparison(check, rule, classes=('_Merger',), functions=('_embed', '_mask')):
+    """(mutant sweep 5) a comparison of an expression with itself decides nothing: `r_param.name == r_param.name` where the two sides of a
+    merge were meant takes every pair of positional parameters for namesakes.  No test of the algebra compares a side with itself."""
+    repo = check.repo
+    m = repo.module(SIG)
+    fis = [f for f in m.funcs.values() if (f.cls is not None and f.cls.name in classes) or (f.cls is None and f.name in functions)]
+    n = 0
+    bad = []
+    for fi in fis:
+        for c in ast.walk(fi.node):
+            if isinstance(c, ast.Compare) and len(c.ops) == 1:
+                n += 1
+                if norm(c.left) == norm(c.comparators[0]) and not isinstance(c.left, ast.Constant):
+                    bad.append((fi, c))
+    key = 'self-comparison|algebra'
+    if bad:
+        fi, c = bad[0]
+        check.analysed(fi)
+        check.violation(rule, site_of(fi, c), '%s in %s compares an expression with itself' % (norm(c), fi.name), key=key,
+                        witness='merge of two signatures whose positional parameters have different names')
+    else:
+        check.holds(rule, '%s %s' % (m.relpath, SIG), 'no comparison of an expression with itself in the algebra (%d comparisons)' % n, key=key)
